@@ -162,7 +162,7 @@ def pn_bounds(r, ty, v):
 
 
 def gen_pn(rng, tier, mult):
-    n = (500 if tier == "quick" else 7000) * mult
+    n = (2000 if tier == "quick" else 60000) * mult
     cases = []
     for ci in range(n):
         r = rng.fork("pn%d" % ci)
@@ -329,7 +329,7 @@ def pf_bounds(r, parts):
 
 
 def gen_pf(rng, tier, mult):
-    n = (300 if tier == "quick" else 4000) * mult
+    n = (1000 if tier == "quick" else 30000) * mult
     cases = []
     for ci in range(n):
         r = rng.fork("pf%d" % ci)
@@ -356,7 +356,7 @@ def gen_pf(rng, tier, mult):
 
 # ------------------------------------------------------------------ humansize
 def gen_hs(rng, tier, mult):
-    n = (300 if tier == "quick" else 4000) * mult
+    n = (800 if tier == "quick" else 20000) * mult
     cases = []
     bvals = []
     for k in range(0, 7):
